@@ -83,6 +83,25 @@ func (x *Exec) lookupGoVar(scope *UnitInfo, name string) *types.Var {
 			}
 		}
 	}
+	// a local of the enclosing top-level function (visible to, though perhaps not captured by, the closure)
+	if u.Lit != nil && u.Decl != nil {
+		var found *types.Var
+		for id, obj := range u.Pkg.TypesInfo.Defs {
+			if id.Name != name || obj == nil {
+				continue
+			}
+			v, ok := obj.(*types.Var)
+			if !ok || v.IsField() {
+				continue
+			}
+			if id.Pos() >= u.Decl.Body.Pos() && id.Pos() < u.Lit.Pos() {
+				if found == nil || v.Pos() > found.Pos() {
+					found = v
+				}
+			}
+		}
+		return found
+	}
 	return nil
 }
 
@@ -380,6 +399,28 @@ func (x *Exec) cxCallTerm(env *cxEnv, y *cxCall) Term {
 			r = "(s_base " + v.S + ")"
 		}
 		return tBool(fmt.Sprintf("(and (not (= %s nilRef)) (>= (alloc %s) %s))", r, r, env.old.clk))
+	case "IsDeclaredFunc":
+		// the types.Object is a *types.Func (a declared function or method), not a variable, builtin, type name or nil
+		v := x.cxEval(env, y.Args[0])
+		for _, imp := range x.unit.Pkg.Imports {
+			if imp.PkgPath == "go/types" && imp.Types != nil {
+				if o := imp.Types.Scope().Lookup("Func"); o != nil {
+					return tBool(sEq("(itag "+v.S+")", fmt.Sprint(x.d.tag(types.NewPointer(o.Type())))))
+				}
+			}
+		}
+		x.undecide("contract: IsDeclaredFunc needs go/types")
+		return tBool("true")
+	case "existing":
+		v := x.cxEval(env, y.Args[0])
+		r := v.S
+		switch v.Sort {
+		case "Iface":
+			r = "(iref " + v.S + ")"
+		case "Slice":
+			r = "(s_base " + v.S + ")"
+		}
+		return tBool(fmt.Sprintf("(< (alloc %s) %s)", r, env.old.clk))
 	case "fieldmap":
 		key := x.fieldmapKey(y)
 		v := env.ev.fields[key]
@@ -596,50 +637,55 @@ func (x *Exec) modelApply(env *cxEnv, mu *UnitSpec, args []Term) Term {
 	if x.revealed[mu.Key] || mu.Flags["pred"] || transparentModel(mu) != "" {
 		return expand()
 	}
-	// caller mode: (select MF obj) [idx...]
-	vs, ok := x.modelSort[mu.Key]
-	if !ok {
-		// determine the value sort by expanding once in a scratch state
-		scratch := env.live.clone()
-		sub := &cxEnv{live: scratch, ev: scratch, old: scratch, binds: env.binds, scope: env.scope, bound: env.bound}
-		saveUnd := x.undecided
-		r := func() Term {
-			e2 := *sub
-			b := map[string]Term{}
-			for i, p := range mu.Params {
-				a := args[i]
-				if a.T == nil {
-					a.T = x.modelParamType(mu, i)
-				}
-				b[p] = a
+	// caller mode: (select MF obj) [idx...]; the value sort is that of the definition at these
+	// argument types (a model of a generic type has one array per instantiation sort)
+	scratch := env.live.clone()
+	saveUnd := x.undecided
+	saveDecl := len(x.d.lines)
+	_ = saveDecl
+	var r0 Term
+	{
+		b := map[string]Term{}
+		for i, p := range mu.Params {
+			a := args[i]
+			if a.T == nil {
+				a.T = x.modelParamType(mu, i)
 			}
-			e2.binds = b
-			savedHdr := x.hdr
-			x.hdr = map[string]Term{}
-			defer func() { x.hdr = savedHdr }()
-			return x.cxEval(&e2, mu.ModelDef)
-		}()
-		x.undecided = saveUnd
-		vs = r.Sort
-		x.modelSort[mu.Key] = vs
-		x.modelType[mu.Key] = r.T
+			b[p] = a
+		}
+		sub := &cxEnv{live: scratch, ev: scratch, old: scratch, binds: b, scope: env.scope, bound: env.bound}
+		savedHdr := x.hdr
+		x.hdr = map[string]Term{}
+		r0 = x.cxEval(sub, mu.ModelDef)
+		x.hdr = savedHdr
 	}
+	x.undecided = saveUnd
+	vs := r0.Sort
+	mkey := mu.Key
+	if vs != x.modelSort[mu.Key] {
+		if _, seen := x.modelSort[mu.Key]; seen {
+			mkey = mu.Key + "_" + sanitizeSym(vs)
+		} else {
+			x.modelSort[mu.Key] = vs
+		}
+	}
+	x.modelType[mkey] = r0.T
 	sortArr := vs
 	for i := len(args) - 1; i >= 1; i-- {
 		sortArr = "(Array " + args[i].Sort + " " + sortArr + ")"
 	}
 	full := "(Array Ref " + sortArr + ")"
-	v := env.ev.models[mu.Key]
+	v := env.ev.models[mkey]
 	if v == nil {
-		v = x.entry.models[mu.Key]
+		v = x.entry.models[mkey]
 	}
 	if v == nil {
-		name := x.d.constant("MF0_"+mu.Key, full)
+		name := x.d.constant("MF0_"+mkey, full)
 		v = &HeapVer{term: name, sort: full, valSort: sortArr}
-		env.live.models[mu.Key] = v
-		x.entry.models[mu.Key] = v
-		if ev2 := env.ev.models[mu.Key]; ev2 == nil {
-			env.ev.models[mu.Key] = v
+		env.live.models[mkey] = v
+		x.entry.models[mkey] = v
+		if ev2 := env.ev.models[mkey]; ev2 == nil {
+			env.ev.models[mkey] = v
 		}
 	}
 	x.emitFrameInst(env.live, v, args[0].S)
@@ -647,7 +693,7 @@ func (x *Exec) modelApply(env *cxEnv, mu *UnitSpec, args []Term) Term {
 	for _, a := range args[1:] {
 		s = fmt.Sprintf("(select %s %s)", s, a.S)
 	}
-	return Term{S: s, Sort: vs, T: x.modelType[mu.Key]}
+	return Term{S: s, Sort: vs, T: x.modelType[mkey]}
 }
 
 // fieldSortByKey: value sort of heap key "pkg.Type.field" of the unit's package.
